@@ -13,6 +13,32 @@ def first_seg(k):
     return k.split(".")[0].split("[")[0]
 
 
+def key_segments(tree, out=None):
+    """every name `Object::get` may be asked for, on the root or on a nested object: the segments
+    (without their [i] index) of every key written anywhere in the rule"""
+    out = set() if out is None else out
+    for k, node in tree.items():
+        for seg in k.split("."):
+            out.add(seg.split("[")[0])
+        if node["sub"]:
+            key_segments(node["sub"], out)
+    return out
+
+
+GETS_RE = None
+
+
+def gets_of(line):
+    """{(switch set, doc index): [keys]} from the crate-only `(gets ..)` elements"""
+    import re
+    global GETS_RE
+    GETS_RE = GETS_RE or re.compile(r"\(gets (\d+) (\d+)((?: h[0-9a-f]*)*)\)")
+    out = {}
+    for sw, di, ks in GETS_RE.findall(line):
+        out[(int(sw), int(di))] = [bytes.fromhex(k[1:]).decode("utf-8", "replace") for k in ks.split()]
+    return out
+
+
 def add_noise(rng, doc, tree):
     """A copy of doc that differs only in fields no predicate addresses -- at the top level
     and inside every nested object that a nested block of the rule walks."""
@@ -72,7 +98,27 @@ def run(ck):
         docs.append(strip_unaddressed(d, tree))      # only addressed fields (nested objects may become empty)
         docs.append(add_noise(rng, d, tree))         # the same plus / minus unaddressed ones
         cases.append({"k": "rule", "id": ck.new_id(), "rule": rule_text(det), "docs": [D(d) for d in docs], "sw": SWS,
-                      "reads": True, "_keys": set(tree.keys()), "_docs": docs})
+                      "reads": True, "_keys": set(tree.keys()), "_docs": docs, "_segs": key_segments(tree)})
+    # nested blocks inside matrix cells whose block repeats the name of the outer key (the matrix
+    # renames the CELL's field to a synthetic column key; nothing inside the block may be renamed)
+    for _ in range(60 if thorough else 20):
+        f, g, h = rng.sample(["f", "g", "h", "k"], 3)
+        inner = rng.choice([{f: "a*"}, {f: "a*", g: 1}, {g: {f: "a*"}}, {"all(%s)" % f: ["*a*", "*b*"]}, {f: ["a*", "b*"]}])
+        rows = [{f: inner, g: "x"}, {f: inner if rng.random() < 0.5 else {f: "b*"}, g: "y"}, {g: "z", h: 1}]
+        rng.shuffle(rows)
+        det = {"A": rows, "B": {f: inner}, "condition": rng.choice(["A", "A or B", "not A", "of(A, 2)", "A and B"])}
+        tree = gen.rule_fields(det)
+        docs = []
+        for _ in range(4):
+            d = gen.gen_doc(rng, tree)
+            if rng.random() < 0.7:
+                d[f] = rng.choice([{f: "ab", g: 1}, {f: "ab", "\u0000": "ab"}, [{f: "ab"}, {g: {f: "ab"}}], {g: {f: "ab", "\u0001": 1}}, {f: "zz", "\u0000": "ab", "\u0001": "ab"}])
+                d[g] = rng.choice(["x", "y", "z"])
+            docs.append(d)
+            docs.append(add_noise(rng, d, tree))
+        cases.append({"k": "rule", "id": ck.new_id(), "rule": rule_text(det), "docs": [D(d) for d in docs], "sw": SWS,
+                      "reads": True, "_keys": set(tree.keys()), "_docs": docs, "_segs": key_segments(tree)})
+        ck.count("family:matrix_cell_nested_same_key")
     # coverage families: cast comparisons with a field on either side, matrices (also evaluated per
     # array element), merged nested blocks, regrouped or-groups, quantified cast bodies
     import covfam
@@ -83,7 +129,7 @@ def run(ck):
             docs.append(d)
             docs.append(add_noise(rng, d, tree))
         cases.append({"k": "rule", "id": ck.new_id(), "rule": rule_text(det, extra=extra), "docs": [D(d) for d in docs], "sw": SWS,
-                      "reads": True, "_keys": set(tree.keys()), "_docs": docs})
+                      "reads": True, "_keys": set(tree.keys()), "_docs": docs, "_segs": key_segments(tree)})
         ck.count("family:" + fam)
     send = rulebase.wire(cases)
     impl, model, _ = lib.run_cases(send, "C16")
@@ -95,9 +141,26 @@ def run(ck):
         if a["load"] != "ok":
             ck.count("load:" + str(a["load"]))
             continue
+        gets = gets_of(impl[c["id"]])
         for sw in SWS:
             res = a["res"].get(sw)
             reads = a["reads"].get(sw)
+            # keys asked of ANY object of the document tree (nested objects included): only names the rule writes
+            for (gsw, di), ks in gets.items():
+                if gsw != sw:
+                    continue
+                evals += 1
+                ck.count("nested_gets_checked")
+                stray = [k for k in ks if k not in c["_segs"]]
+                if stray:
+                    if len(direct_failed) < 4 and c["id"] not in direct_failed:
+                        ck.violation({"property": "C16", "kind": "direct",
+                                      "what": "an object of the document (the root or a nested object) was asked for a name that is not "
+                                              "written anywhere in the rule",
+                                      "rule": c["rule"], "switch_set": sw, "doc": c["docs"][di], "names_asked": ks,
+                                      "names_in_rule": sorted(c["_segs"]), "unexpected": stray,
+                                      "replay_case": {"k": "rule", "id": 1, "rule": c["rule"], "docs": [c["docs"][di]], "sw": [sw], "reads": True}})
+                    direct_failed.add(c["id"])
             if res is None or res == "x" or reads is None:
                 ck.count("not_evaluated(optimise panicked)")
                 continue
